@@ -80,6 +80,8 @@ def gen_cfg(seed, index, tier):
     m["ene0"] = rng.choice([0.0, -1.3, 0.7])
     m["jax_seed"] = rng.randrange(1, 2**20)
     m["walker_noise"] = rng.choice([0.0, 0.1, 0.3])
+    # user-supplied start walkers need not be orthonormal: the first step's QR must then put det R into the norm
+    m["orthonormal_start"] = rng.random() < 0.5
     nw = m["n_walkers"]
     if m["kind"] == "history":
         ops = []
@@ -143,7 +145,9 @@ def start_walkers(cfg, s, rs):
 
     def noisy(b):
         x = b[None] + eps * (rs.normal(size=(nw,) + b.shape) + 1j * rs.normal(size=(nw,) + b.shape))
-        return np.array([np.linalg.qr(y)[0] for y in x])  # free projection starts from orthonormal walkers
+        if cfg.get("orthonormal_start", True):
+            return np.array([np.linalg.qr(y)[0] for y in x])
+        return x * (0.7 + 0.6 * rs.uniform(size=(nw, 1, 1)))  # general full-rank walkers, not even normalised
 
     return [jnp.array(noisy(bu)), jnp.array(noisy(bd))]
 
@@ -239,7 +243,9 @@ def execute(cfg, ctx):
 def _init(cfg, s, rs):
     from jax import random as jr
 
-    pd = s.plain.init_prop_data(s.trial, s.wave_data, dict(s.ham_data), start_walkers(cfg, s, rs))
+    w0 = start_walkers(cfg, s, rs)
+    s.input_walkers = (np.asarray(w0[0]).copy(), np.asarray(w0[1]).copy())  # what the caller handed in
+    pd = s.plain.init_prop_data(s.trial, s.wave_data, dict(s.ham_data), [w0[0], w0[1]])
     pd["key"] = jr.PRNGKey(cfg["jax_seed"])
     return pd
 
@@ -256,7 +262,7 @@ def _exec_history(cfg, ctx):
     if not (np.all(np.isfinite(np.abs(ov))) and np.min(np.abs(ov)) > 1e-4):
         ctx.count("precondition_start_overlap")
         return {"digest": None, "nontrivial": False}
-    up, dn = np.asarray(pd["walkers"][0]), np.asarray(pd["walkers"][1])
+    up, dn = s.input_walkers
     order = 8 if cfg["nchol"] <= 2 else 6
     res, ratios = phaseless.ladder_ratios(lambda dt: make_model(cfg, s, dt), up[0], dn[0], LADDER, kind="free", order=order)
     if min(ratios[-2:]) >= 3.0 and res[-1] < 1e-3:
@@ -269,6 +275,14 @@ def _exec_history(cfg, ctx):
     nw, G = cfg["n_walkers"], cfg["nchol"]
     key = jr.PRNGKey(cfg["jax_seed"] + 3)
     stats = dict(steps_compared=0, qr_nontrivial=0)
+    # the state set up from the caller's walkers represents exactly those walkers: norm x walker = input
+    for i in range(nw):
+        want = m.state(up[i], dn[i])
+        got = np.asarray(pd["norms"])[i] * m.state(np.asarray(pd["walkers"][0])[i], np.asarray(pd["walkers"][1])[i])
+        if not float(np.linalg.norm(got - want)) <= 1e-9 * float(np.linalg.norm(want)):
+            _bad(ctx, "free.initial_state_is_not_the_input_walker", "propagator_unrestricted.init_prop_data", cfg, walker=i,
+                 rel_err=float(np.linalg.norm(got - want) / np.linalg.norm(want)), orthonormal_start=cfg.get("orthonormal_start", True))
+            break
     calc_e = jax.jit(lambda w, hd, wd: s.trial.calc_energy(w, hd, wd))
     calc_fb = jax.jit(lambda w, hd, wd: s.trial.calc_force_bias(w, hd, wd))
     rec = []
@@ -347,7 +361,7 @@ def _exec_sampler(cfg, ctx):
         ctx.count("precondition_start_overlap")
         return {"digest": None, "nontrivial": False}
     smp = sampling.sampler(cfg["n_prop_steps"], cfg["n_ene_blocks"], 1, cfg["n_blocks"])
-    up, dn = np.asarray(pd["walkers"][0]), np.asarray(pd["walkers"][1])
+    up, dn = s.input_walkers
     key0 = pd["key"]
     traj, be, bw, newkey = smp.propagate_free(s.ham, dict(s.ham_data), s.plain, lab.copy_pd(pd), s.trial, s.wave_data)
     stats = dict(steps_compared=0, qr_nontrivial=0)
